@@ -112,6 +112,16 @@ func (x *txnCtx) applyFilter(chain []FStep) sel {
 	first := &x.first
 	for i := range chain {
 		f := &chain[i]
+		if (f.Kind == "union" || f.Kind == "withunion") && x.cleared {
+			// known finding: a selection emptied by a filter on a missing column cannot be widened again
+			if x.w.avoid["union-after-clear"] {
+				continue
+			}
+			x.w.noteTrigger("union-after-clear")
+		}
+		if x.clears(f) {
+			x.cleared = true
+		}
 		switch f.Kind {
 		case "with":
 			x.txn.With(f.Names...)
@@ -211,6 +221,32 @@ func (x *txnCtx) applyFilter(chain []FStep) sel {
 	}
 	*first = false
 	return s
+}
+
+// clears reports whether a filter step hits a missing (or inapplicable) column, which makes
+// the library truncate the selection bitmap rather than zero it.
+func (x *txnCtx) clears(f *FStep) bool {
+	m := x.w.model
+	switch f.Kind {
+	case "with":
+		for _, n := range f.Names {
+			if !m.exists(n) {
+				return true
+			}
+		}
+	case "withvalue", "withint", "withuint", "withfloat", "withstring":
+		col, ok := m.Col(f.Names[0])
+		if !ok {
+			return true
+		}
+		switch f.Kind {
+		case "withint", "withuint", "withfloat":
+			return !col.Kind.Numeric()
+		case "withstring":
+			return !col.Kind.Textual()
+		}
+	}
+	return false
 }
 
 // initSel mirrors Txn.initialize: the first selection-related call of a transaction
@@ -351,10 +387,24 @@ func (x *txnCtx) setAnyTxn(col ColSpec, v MVal) {
 
 func (x *txnCtx) deleteAll(op *Op) {
 	want := x.applyFilter(op.Filter)
-	x.txn.DeleteAll()
 	if want == nil {
 		panic("deleteall is only generated in single-client worlds")
 	}
+	for o := range want {
+		if x.deleted(o) {
+			if x.w.avoid["double-delete"] {
+				return
+			}
+			x.w.noteTrigger("double-delete")
+		}
+		if x.wrote(o, "") {
+			if x.w.avoid["put-delete"] {
+				return
+			}
+			x.w.noteTrigger("put-delete")
+		}
+	}
+	x.txn.DeleteAll()
 	for _, o := range want.sorted() {
 		x.mt.add(MOp{Kind: mDelete, Off: o})
 	}
@@ -397,6 +447,16 @@ func (x *txnCtx) readOp(op *Op) {
 		nk := nums[col.Kind]
 		var vals []uint64
 		exactSum := true
+		for _, o := range want.sorted() {
+			if _, ok := m.Get(o, op.Col); !ok {
+				// known finding: aggregates ignore the presence bitmap (a selected row without a
+				// value contributes its slot's stale content to Sum/Min/Max and counts in Avg)
+				if w.avoid["agg-missing-value"] {
+					return
+				}
+				w.noteTrigger("agg-missing-value")
+			}
+		}
 		for _, o := range want.sorted() {
 			if v, ok := m.Get(o, op.Col); ok {
 				vals = append(vals, v.U)
